@@ -90,9 +90,9 @@ class Sim:
                     j = r.randrange(n + 1); i = j if r.random() < 0.6 else j - (n + 1)
                     xs.insert(j, p)
             else:
-                # List_Push_At: 0 = head, otherwise the position of an existing element; a failing call leaks
-                # (known finding own-list-pushat-leak), so only valid positions are generated
-                if n == 0 or r.random() < 0.3: i = 0; xs.insert(0, p)
+                # List_Push_At: 0 = head, otherwise the position of an existing element (the end is not a position)
+                if f: i = r.choice([n, n + 2, -n - 1, -n - 4]) if n else r.choice([1, 3, -1, -2])
+                elif n == 0 or r.random() < 0.3: i = 0; xs.insert(0, p)
                 else:
                     j = r.randrange(n); i = j if (j > 0 and r.random() < 0.6) else j - n
                     if i == 0: i = -n
@@ -229,8 +229,8 @@ class C05(Spec):
                   'per operation on thousands of generated histories.')
     level_note = ('Trusted: Lean kernel; harness/driver comparison (testing) for the step correspondence; the probe element type stands for '
                   '"an element type with its own constructor, assignment and destructor that owns heap memory". Known findings excluded from '
-                  'the contract: Box_Assign is shallow (F28), List_Resize growing a list links unconstructed elements, a failing '
-                  'List_Push_At leaks the element it constructed. Not modelled: slot layout of Table / shape of Tree (C02/C03), capacity.')
+                  'the contract: Box_Assign is shallow (F28), List_Resize growing a list links unconstructed elements. '
+                  'Not modelled: slot layout of Table / shape of Tree (C02/C03), capacity.')
     rule = ('histories over up to 12 simultaneously live containers of all kinds (Array, List, Table, Tree of probe elements; Array of Box; '
             'stand-alone Box): (a) mixed, (b) sequence-heavy (push/push_at/pop/pop_at/set/rem/resize/sort/concat/assign Array<->List), '
             '(c) map-heavy with 36 keys sharing 6 hash values (clusters, displacement, replace of existing keys, rem with backward shift, '
@@ -246,7 +246,6 @@ class C05(Spec):
     assumptions = ('single thread, collector running, containers deleted explicitly with del (collector-driven finalisation is C06)',
                    'Box elements excluded from copy/assign/concat and from set: Box_Assign copies the pointer (known finding own-box-assign-shallow, F28)',
                    'resize(list, n) with n > len excluded: List_Resize links zero-filled, never constructed elements (known finding own-list-resize-raw)',
-                   'push_at on a List only with index 0 or the position of an existing element: a failing List_Push_At leaks the element it constructed (known finding own-list-pushat-leak)',
                    'assignment/concat across families (sequence <- map) and concat of a container with itself are outside what the code supports and are not generated',
                    'element and argument types agree (type errors are C12), payloads < 2^31, fewer than 2^63 elements')
 
